@@ -7,11 +7,12 @@ CONSTANTS MaxMaps, PoolKind     \* PoolKind: "single" (one key per map, all type
 
 K(ty, s) == [ty |-> ty, s |-> s]
 One(k, d) == [x \in {k} |-> d]
-CounterData == {[v |-> v, ts |-> t] : v \in Vals, t \in 1..2}
+CounterData == {[v |-> v, ts |-> t] : v \in Vals \cup {0}, t \in 1..2}   \* 0: "c:0|c" and the aggregator's idle placeholder
+GaugeData   == {[v |-> v, ts |-> t] : v \in Vals, t \in 1..2}
 TimerData   == {[bag |-> BagOf(1), cnt |-> 1, ts |-> 1], [bag |-> BagOf(2), cnt |-> 2, ts |-> 1],
                 [bag |-> BagOf(1), cnt |-> 2, ts |-> 2], [bag |-> BagAdd(BagOf(2), BagOf(2)), cnt |-> 4, ts |-> 2]}
 SetData     == {[mem |-> {"a"}, ts |-> 1], [mem |-> {"b"}, ts |-> 2], [mem |-> {"a", "b"}, ts |-> 1], [mem |-> {}, ts |-> 2]}
-Single == {One(K("counter", "x"), d) : d \in CounterData} \cup {One(K("gauge", "x"), d) : d \in CounterData}
+Single == {One(K("counter", "x"), d) : d \in CounterData} \cup {One(K("gauge", "x"), d) : d \in GaugeData}
           \cup {One(K("timer", "x"), d) : d \in TimerData} \cup {One(K("set", "x"), d) : d \in SetData}
 GaugeOnly == {One(K("gauge", "x"), [v |-> v, ts |-> t]) : v \in {1, 2, 3}, t \in 1..2}
 Full(v, t) == [k \in {K("counter", "x"), K("gauge", "x"), K("gauge", "y"), K("timer", "x"), K("set", "x")} |->
